@@ -533,6 +533,14 @@ CAMPAIGNS['C13'].append(camp(
     mode='oserror-sweep', nontrivial=nt_rollback_restored, chunk=6, follow=1,
     torn=False, errnos=['EACCES', 'ENOSPC'], post='tag_all:C13', weight=0.7,
     sweep_max={'quick': 12, 'thorough': None}))
+CAMPAIGNS['C07'].append(camp(
+    'c07-chdir', 'C07',
+    dict(IDENTITY_HEAVY, p_chdir_step=0.5, p_spelling=0.8, p_q_spelling=0.6,
+         n_steps=(3, 7), w_dup=6),
+    'relative spellings of targets and queried paths while the working '
+    'directory changes between builds (a relative path names another file '
+    'after chdir, the same file is named by another relative path)',
+    post='tag_all:C07', weight=0.6))
 RACE_RULE = ('a key (build_file path / subbuild name+arguments) performed '
              'directly by one thread while another thread reuses or '
              're-executes a cached subtree (depth 1-2) that contains it; '
